@@ -144,7 +144,8 @@ def run(env, rep):
                 continue
             # a <= 16 bit length read from the input, whose buffer is then filled by read_exact
             e = strip_casts(sz)
-            from_read = isinstance(e, tuple) and e[0] == "proj" and isinstance(e[1], tuple) and e[1][0] == "call" and ("read_u16" in e[1][2] or "read_u8" in e[1][2])
+            from_read = (isinstance(e, tuple) and e[0] == "proj" and isinstance(e[1], tuple) and e[1][0] == "call" and ("read_u16" in e[1][2] or "read_u8" in e[1][2])) \
+                or (isinstance(e, tuple) and sv_type(e) in ("u8", "u16"))      # a length that is at most 16 bits wide by its type (e.g. handed to a helper)
             filled = False
             if from_read and name == "alloc::vec::from_elem":
                 # the destination vector is passed to read_exact on every path that continues
@@ -156,7 +157,7 @@ def run(env, rep):
                 rep.ok("C14.R2", key, "buffer of a declared <= 16-bit length (%s) that read_exact must fill or fail" % d, t["span"])
             else:
                 rep.bad("C14.R2", key, "allocation in the decoder sized by %s in %s: a declared count / length from the input sizes memory before the data is known to exist" % (stable(sz), d), t["span"])
-    rep.floor("C14.R2", "allocation sites with a computed size in the AMF0 decoder", n, 2)
+    rep.floor("C14.R2", "allocation sites with a computed size in the AMF0 decoder", n, 1)
     # ---- R3
     nl = loops.loop_progress(env, rep, "C14.R3", [b for b in bodies if b.kind != "closure"])
     rep.floor("C14.R3", "loops in the AMF0 decoder", nl, 3)
